@@ -27,7 +27,7 @@ structure WFacts (m : SeqMod) : Prop where
 
 theorem WF.facts {m : SeqMod} (h : WF m) : WFacts m := by
   unfold WF wfB at h
-  simp only [Bool.and_eq_true, decide_eq_true_eq, Bool.or_eq_true, beq_iff_eq] at h
+  simp only [Bool.and_eq_true, decide_eq_true_eq, Bool.or_eq_true] at h
   obtain ⟨⟨⟨⟨⟨⟨⟨⟨⟨⟨⟨⟨⟨⟨⟨⟨h1, h2⟩, h3⟩, _h4⟩, h5⟩, h5b⟩, _h6⟩, _h7⟩, _h8⟩, h9⟩, _h10⟩, hxo⟩, hrows⟩, hentry⟩, hsc⟩, hinfo⟩, hstart⟩ := h
   refine ⟨⟨h1, h2⟩, h3, ⟨h5, h5b⟩, h9, ?_, ?_, ?_, ?_, ?_, hstart⟩
   · intro o a b
@@ -48,5 +48,396 @@ theorem WF.facts {m : SeqMod} (h : WF m) : WFacts m := by
     rcases this with h | h
     · omega
     · exact ⟨h.1.1.1, h.1.1.2, h.1.2, h.2⟩
+
+
+/-! ## Invariants -/
+
+/-- Range invariant that holds at every API boundary (after start, after every frame, after
+every position-control call) — everything except the two clauses about `row < rows`. -/
+structure Core (m : SeqMod) (s : St) : Prop where
+  seq : 0 ≤ s.sequence ∧ s.sequence < m.numSeq
+  ord : 0 ≤ s.ord ∧ s.ord < m.len
+  ordPat : m.xo s.ord < m.pat
+  pos : -2 ≤ s.pos ∧ s.pos < m.len
+  row : 0 ≤ s.row
+  speed : 1 ≤ s.speed ∧ s.speed ≤ 255
+  bpm : 1 ≤ s.bpm
+  ftBpm : 1 ≤ s.ftBpm
+  st26 : st26ok s.st26 = true
+  jump : -1 ≤ s.jump
+  jumpline : 0 ≤ s.jumpline
+
+/-- `f->num_rows` is the row count of the pattern being played. -/
+def Fresh (m : SeqMod) (s : St) : Prop := s.numRows = m.rowsOf (m.xo s.ord)
+
+/-- the row part of the invariant: the row is inside the current pattern, and unless a
+reposition is pending `f->num_rows` is fresh -/
+structure RowInv (m : SeqMod) (s : St) : Prop where
+  rowLt : s.row < m.rowsOf (m.xo s.ord)
+  numOk : s.pos = s.ord → Fresh m s
+
+/-- what holds after every successful frame, except `row < rows` -/
+structure FInvCore (m : SeqMod) (s : St) : Prop where
+  core : Core m s
+  posOrd : s.pos = s.ord
+
+/-- what the effect stages may write -/
+structure EffOk (e : Eff) : Prop where
+  jump : ∀ v, e.jump = some v → -1 ≤ v
+  jumpline : ∀ v, e.jumpline = some v → 0 ≤ v
+  speed : ∀ v, e.speed = some v → 1 ≤ v ∧ v ≤ 255
+  bpm : ∀ v, e.bpm = some v → 1 ≤ v
+  st26 : ∀ v, e.st26 = some v → st26ok v = true
+
+theorem st26ok_spec {v : Int} (h : st26ok v = true) :
+    v = 0 ∨ (0 < v ∧ v < 0x20000 ∧ v % 256 ≠ 0 ∧ (v / 256) % 256 ≠ 0) := by
+  unfold st26ok at h
+  simp only [Bool.or_eq_true, beq_iff_eq, Bool.and_eq_true, decide_eq_true_eq] at h
+  rcases h with h | h
+  · left; exact h
+  · right; exact ⟨h.1.1.1, h.1.1.2, h.1.2, h.2⟩
+
+theorem st26ok_of {v : Int} (h : v = 0 ∨ (0 < v ∧ v < 0x20000 ∧ v % 256 ≠ 0 ∧ (v / 256) % 256 ≠ 0)) :
+    st26ok v = true := by
+  unfold st26ok
+  simp only [Bool.or_eq_true, beq_iff_eq, Bool.and_eq_true, decide_eq_true_eq]
+  rcases h with h | h
+  · left; exact h
+  · right; exact ⟨⟨⟨h.1, h.2.1⟩, h.2.2.1⟩, h.2.2.2⟩
+
+/-! ## next_order -/
+
+theorem nextOrderLoop_spec {m : SeqMod} (w : WFacts m) {seq : Int} (hs0 : 0 ≤ seq) (hs1 : seq < m.numSeq) :
+    ∀ (fuel : Nat) (ord : Int) (rg : Bool) (o : Int) (rg' : Bool), -1 ≤ ord →
+      nextOrderLoop m seq fuel ord rg = some (o, rg') → 0 ≤ o ∧ o < m.len ∧ m.xo o < m.pat := by
+  intro fuel
+  induction fuel with
+  | zero => intro ord rg o rg' _ h; simp [nextOrderLoop] at h
+  | succ n ih =>
+    intro ord rg o rg' hord h
+    unfold nextOrderLoop at h
+    simp only at h
+    have he := w.entry seq hs0 hs1
+    generalize hr : (if ord + 1 ≥ m.len ∨ (m.marker && decide (ord + 1 < m.len) && decide (m.xo (ord + 1) = 0xff)) = true then
+        if m.rst > m.len ∨ m.xo m.rst ≥ m.pat ∨ ord + 1 < m.entryOf seq then (m.entryOf seq, true)
+        else if geti m.seqCtl m.rst = seq then (m.rst, true) else (m.entryOf seq, true)
+      else (ord + 1, rg)) = r at h
+    have hr1 : 0 ≤ r.1 ∧ r.1 < m.len := by
+      rw [← hr]
+      split
+      · split
+        · exact he
+        · split
+          · exact w.rst
+          · exact he
+      · rename_i hc
+        simp only [not_or] at hc
+        constructor <;> simp only <;> omega
+    split at h
+    · exact ih r.1 r.2 o rg' (by omega) h
+    · rename_i hp
+      simp only [Option.some.injEq] at h
+      subst h
+      exact ⟨hr1.1, hr1.2, by simp only at hp; omega⟩
+
+
+/-- the fields `next_order` leaves alone -/
+def SameAux (s s' : St) : Prop :=
+  s'.sequence = s.sequence ∧ s'.speed = s.speed ∧ s'.bpm = s.bpm ∧ s'.ftBpm = s.ftBpm ∧ s'.st26 = s.st26 ∧
+  s'.jump = s.jump ∧ s'.loopCount = s.loopCount
+
+theorem nextOrder_spec {m : SeqMod} (w : WFacts m) {s s' : St} (hs : 0 ≤ s.sequence ∧ s.sequence < m.numSeq)
+    (hord : -1 ≤ s.ord) (hjl : 0 ≤ s.jumpline) (h : nextOrder m s = some s') :
+    (0 ≤ s'.ord ∧ s'.ord < m.len) ∧ m.xo s'.ord < m.pat ∧ s'.pos = s'.ord ∧ Fresh m s' ∧
+    (0 ≤ s'.row ∧ s'.row < s'.numRows) ∧ s'.jumpline = 0 ∧ s'.frame = 0 ∧ SameAux s s' := by
+  unfold nextOrder at h
+  split at h
+  · simp at h
+  · rename_i ord rg heq
+    have sp := nextOrderLoop_spec w hs.1 hs.2 _ _ _ _ _ hord heq
+    simp only [Option.some.injEq] at h
+    subst h
+    have hx := w.xo ord sp.1 (by have := w.len; omega)
+    have hrows := w.rows (m.xo ord) hx.1 sp.2.2
+    refine ⟨⟨sp.1, sp.2.1⟩, sp.2.2, rfl, rfl, ?_, rfl, rfl, ?_⟩
+    · simp only
+      split <;> omega
+    · simp [SameAux]
+
+theorem checkEnd_same (m : SeqMod) (s : St) :
+    (checkEnd m s).ord = s.ord ∧ (checkEnd m s).pos = s.pos ∧ (checkEnd m s).row = s.row ∧
+    (checkEnd m s).frame = s.frame ∧ (checkEnd m s).speed = s.speed ∧ (checkEnd m s).bpm = s.bpm ∧
+    (checkEnd m s).st26 = s.st26 ∧ (checkEnd m s).sequence = s.sequence ∧ (checkEnd m s).jump = s.jump ∧
+    (checkEnd m s).jumpline = s.jumpline ∧ (checkEnd m s).numRows = s.numRows ∧ (checkEnd m s).ftBpm = s.ftBpm ∧
+    (checkEnd m s).pbreak = s.pbreak ∧ (checkEnd m s).delay = s.delay ∧ (checkEnd m s).loopDest = s.loopDest ∧
+    (checkEnd m s).rowdelay = s.rowdelay ∧ (checkEnd m s).gvol = s.gvol ∧ s.loopCount ≤ (checkEnd m s).loopCount := by
+  unfold checkEnd
+  split
+  · split <;> simp <;> omega
+  · simp
+
+/-- Playing state: no reposition pending. -/
+structure Playing (m : SeqMod) (s : St) : Prop where
+  core : Core m s
+  posOrd : s.pos = s.ord
+
+theorem core_of_nextOrder {m : SeqMod} (w : WFacts m) {s s' : St} (hs : 0 ≤ s.sequence ∧ s.sequence < m.numSeq)
+    (hord : -1 ≤ s.ord) (hjl : 0 ≤ s.jumpline) (hsp : 1 ≤ s.speed ∧ s.speed ≤ 255) (hb : 1 ≤ s.bpm)
+    (hf : 1 ≤ s.ftBpm) (h26 : st26ok s.st26 = true) (hj : -1 ≤ s.jump) (h : nextOrder m s = some s') :
+    Playing m s' ∧ Fresh m s' ∧ s'.row < s'.numRows ∧ s'.loopCount = s.loopCount ∧ s'.frame = 0 := by
+  have sp := nextOrder_spec w hs hord hjl h
+  obtain ⟨ho, hp, hpo, hfr, hrow, hjl', hfm, a1, a2, a3, a4, a5, a6, a7⟩ := sp
+  refine ⟨⟨⟨by omega, ho, hp, by omega, hrow.1, by omega, by omega, by omega, by rw [a5]; exact h26, by omega, by omega⟩, hpo⟩,
+    hfr, hrow.2, a7, hfm⟩
+
+/-- `next_row` from a playing state. -/
+theorem nextRow_spec {m : SeqMod} (w : WFacts m) {s s' : St} (hp : Playing m s) (h : nextRow m s = some s') :
+    Playing m s' ∧ s'.frame = 0 ∧ s'.loopCount = s.loopCount ∧
+    (Fresh m s → Fresh m s' ∧ s'.row < s'.numRows) := by
+  have c := hp.core
+  unfold nextRow at h
+  simp only at h
+  split at h
+  · -- pattern break
+    split at h
+    · rename_i hj
+      have := core_of_nextOrder (s := { s with frame := 0, delay := 0, pbreak := 0, ord := s.jump - 1, jump := -1 }) w c.seq
+        (by simp only; have := c.jump; omega) c.jumpline c.speed c.bpm c.ftBpm c.st26 (by simp) h
+      exact ⟨this.1, this.2.2.2.2, this.2.2.2.1, fun _ => ⟨this.2.1, this.2.2.1⟩⟩
+    · have := core_of_nextOrder (s := { s with frame := 0, delay := 0, pbreak := 0 }) w c.seq
+        (by simp only; have := c.ord; omega) c.jumpline c.speed c.bpm c.ftBpm c.st26 c.jump h
+      exact ⟨this.1, this.2.2.2.2, this.2.2.2.1, fun _ => ⟨this.2.1, this.2.2.1⟩⟩
+  · -- plain row advance
+    generalize hs1 : (if s.rowdelay = 0 then { s with frame := 0, delay := 0, row := s.row + 1 }
+        else { s with frame := 0, delay := 0, rowdelay := s.rowdelay - 1 } : St) = s1 at h
+    have e1 : s1.ord = s.ord ∧ s1.pos = s.pos ∧ s1.sequence = s.sequence ∧ s1.speed = s.speed ∧ s1.bpm = s.bpm ∧
+        s1.ftBpm = s.ftBpm ∧ s1.st26 = s.st26 ∧ s1.jump = s.jump ∧ s1.jumpline = s.jumpline ∧ s1.numRows = s.numRows ∧
+        s1.loopCount = s.loopCount ∧ s1.frame = 0 ∧ 0 ≤ s1.row := by
+      rw [← hs1]; split <;> simp <;> have := c.row <;> omega
+    generalize hs2 : (if s1.loopDest ≥ 0 then { s1 with row := s1.loopDest, loopDest := -1 } else s1 : St) = s2 at h
+    have e2 : s2.ord = s.ord ∧ s2.pos = s.pos ∧ s2.sequence = s.sequence ∧ s2.speed = s.speed ∧ s2.bpm = s.bpm ∧
+        s2.ftBpm = s.ftBpm ∧ s2.st26 = s.st26 ∧ s2.jump = s.jump ∧ s2.jumpline = s.jumpline ∧ s2.numRows = s.numRows ∧
+        s2.loopCount = s.loopCount ∧ s2.frame = 0 ∧ 0 ≤ s2.row := by
+      rw [← hs2]
+      split
+      · rename_i hl
+        simp only
+        refine ⟨e1.1, e1.2.1, e1.2.2.1, e1.2.2.2.1, e1.2.2.2.2.1, e1.2.2.2.2.2.1, e1.2.2.2.2.2.2.1, e1.2.2.2.2.2.2.2.1,
+          e1.2.2.2.2.2.2.2.2.1, e1.2.2.2.2.2.2.2.2.2.1, e1.2.2.2.2.2.2.2.2.2.2.1, e1.2.2.2.2.2.2.2.2.2.2.2.1, by omega⟩
+      · exact e1
+    obtain ⟨o1, o2, o3, o4, o5, o6, o7, o8, o9, o10, o11, o12, o13⟩ := e2
+    split at h
+    · have := core_of_nextOrder (s := s2) w (by rw [o3]; exact c.seq) (by rw [o1]; have := c.ord; omega)
+        (by rw [o9]; exact c.jumpline) (by rw [o4]; exact c.speed) (by rw [o5]; exact c.bpm) (by rw [o6]; exact c.ftBpm)
+        (by rw [o7]; exact c.st26) (by rw [o8]; exact c.jump) h
+      exact ⟨this.1, this.2.2.2.2, by rw [this.2.2.2.1, o11], fun _ => ⟨this.2.1, this.2.2.1⟩⟩
+    · rename_i hlt
+      simp only [Option.some.injEq] at h
+      subst h
+      refine ⟨⟨⟨by rw [o3]; exact c.seq, by rw [o1]; exact c.ord, by rw [o1]; exact c.ordPat, by rw [o2]; exact c.pos, o13,
+        by rw [o4]; exact c.speed, by rw [o5]; exact c.bpm, by rw [o6]; exact c.ftBpm, by rw [o7]; exact c.st26,
+        by rw [o8]; exact c.jump, by rw [o9]; exact c.jumpline⟩, by rw [o1, o2]; exact hp.posOrd⟩, o12, o11, ?_⟩
+      intro hf
+      unfold Fresh at hf ⊢
+      rw [o1, o10]
+      exact ⟨hf, by omega⟩
+
+
+theorem playing_checkEnd {m : SeqMod} {s : St} (hp : Playing m s) : Playing m (checkEnd m s) := by
+  obtain ⟨e1, e2, e3, e4, e5, e6, e7, e8, e9, e10, e11, e12, _⟩ := checkEnd_same m s
+  have c := hp.core
+  exact ⟨⟨by rw [e8]; exact c.seq, by rw [e1]; exact c.ord, by rw [e1]; exact c.ordPat, by rw [e2]; exact c.pos,
+    by rw [e3]; exact c.row, by rw [e5]; exact c.speed, by rw [e6]; exact c.bpm, by rw [e12]; exact c.ftBpm,
+    by rw [e7]; exact c.st26, by rw [e9]; exact c.jump, by rw [e10]; exact c.jumpline⟩, by rw [e1, e2]; exact hp.posOrd⟩
+
+theorem fresh_checkEnd {m : SeqMod} {s : St} (h : Fresh m s ∧ s.row < s.numRows) :
+    Fresh m (checkEnd m s) ∧ (checkEnd m s).row < (checkEnd m s).numRows := by
+  obtain ⟨e1, _, e3, _, _, _, _, _, _, _, e11, _⟩ := checkEnd_same m s
+  unfold Fresh at *
+  rw [e1, e3, e11]; exact h
+
+theorem updateFromOrdInfo_spec {m : SeqMod} (w : WFacts m) {s : St} (hp : Playing m s) :
+    Playing m (updateFromOrdInfo m s) ∧ (updateFromOrdInfo m s).numRows = s.numRows ∧
+    (updateFromOrdInfo m s).row = s.row ∧ (updateFromOrdInfo m s).ord = s.ord ∧
+    (updateFromOrdInfo m s).loopCount = s.loopCount ∧ (updateFromOrdInfo m s).frame = s.frame := by
+  have c := hp.core
+  have i := w.info s.ord c.ord.1 c.ord.2 c.ordPat
+  refine ⟨⟨⟨c.seq, c.ord, c.ordPat, c.pos, c.row, ?_, i.1, i.1, i.2.2.2, c.jump, c.jumpline⟩, hp.posOrd⟩, rfl, rfl, rfl, rfl, rfl⟩
+  simp only [updateFromOrdInfo]
+  split
+  · omega
+  · exact c.speed
+
+theorem kernelPre_spec {m : SeqMod} (w : WFacts m) {s s' : St} (hc : Core m s) (h : kernelPre m s = .ok s') :
+    Playing m s' ∧ s.loopCount ≤ s'.loopCount ∧ (RowInv m s → Fresh m s' ∧ s'.row < s'.numRows) := by
+  unfold kernelPre at h
+  split at h
+  · simp at h
+  split at h
+  · simp at h
+  split at h
+  · -- reposition
+    split at h
+    · simp at h
+    split at h
+    · simp at h
+    · rename_i s2 heq
+      simp only [Res.ok.injEq] at h
+      subst h
+      have he := w.entry s.sequence hc.seq.1 hc.seq.2
+      have := core_of_nextOrder w (s := reposPrep m s) hc.seq (by simp only [reposPrep]; split <;> omega) (by simp [reposPrep])
+        hc.speed hc.bpm hc.ftBpm hc.st26 (by simp [reposPrep]) heq
+      obtain ⟨p2, f2, r2, l2, _⟩ := this
+      obtain ⟨p3, n3, r3, o3, l3, _⟩ := updateFromOrdInfo_spec w p2
+      refine ⟨p3, by rw [l3, l2]; simp [reposPrep], fun _ => ?_⟩
+      unfold Fresh at *
+      rw [n3, r3, o3]; exact ⟨f2, r2⟩
+  · -- tick / row advance
+    rename_i hpo
+    have hpo : s.pos = s.ord := by omega
+    have hp1 : Playing m { s with frame := s.frame + 1 } :=
+      ⟨⟨hc.seq, hc.ord, hc.ordPat, hc.pos, hc.row, hc.speed, hc.bpm, hc.ftBpm, hc.st26, hc.jump, hc.jumpline⟩, hpo⟩
+    simp only at h
+    split at h
+    · split at h
+      · split at h
+        · simp at h
+        · rename_i s2 heq
+          split at h
+          · simp at h
+          · rename_i s3 heq3
+            simp only [Res.ok.injEq] at h
+            subst h
+            obtain ⟨p2, _, l2, fr2⟩ := nextRow_spec w hp1 heq
+            obtain ⟨p3, _, l3, fr3⟩ := nextRow_spec w (playing_checkEnd p2) heq3
+            have hl := (checkEnd_same m s2).2.2.2.2.2.2.2.2.2.2.2.2.2.2.2.2.2
+            refine ⟨p3, by rw [l3]; simp only at l2; omega, fun ri => ?_⟩
+            have f2 := fr2 (ri.numOk hpo)
+            exact fr3 (fresh_checkEnd f2).1
+      · split at h
+        · simp at h
+        · rename_i s2 heq
+          simp only [Res.ok.injEq] at h
+          subst h
+          obtain ⟨p2, _, l2, fr2⟩ := nextRow_spec w hp1 heq
+          exact ⟨p2, by rw [l2]; simp, fun ri => fr2 (ri.numOk hpo)⟩
+    · simp only [Res.ok.injEq] at h
+      subst h
+      refine ⟨hp1, by simp, fun ri => ?_⟩
+      have := ri.numOk hpo
+      unfold Fresh at *
+      exact ⟨this, by simp only; rw [this]; exact ri.rowLt⟩
+
+
+theorem kernelStep_spec {m : SeqMod} (w : WFacts m) {s s' : St} (hc : Core m s) (h : kernelStep m s = .ok s') :
+    Playing m s' ∧ s.loopCount ≤ s'.loopCount ∧ (RowInv m s → Fresh m s' ∧ s'.row < s'.numRows) := by
+  unfold kernelStep at h
+  split at h
+  · rename_i s1 heq
+    obtain ⟨p1, l1, f1⟩ := kernelPre_spec w hc heq
+    simp only [Res.ok.injEq] at h
+    subst h
+    split
+    · have hl := (checkEnd_same m s1).2.2.2.2.2.2.2.2.2.2.2.2.2.2.2.2.2
+      exact ⟨playing_checkEnd p1, by omega, fun ri => fresh_checkEnd (f1 ri)⟩
+    · exact ⟨p1, l1, f1⟩
+  · rename_i hne
+    exact absurd h (hne s')
+
+/-- kernel-owned fields agree -/
+def KSame (s s' : St) : Prop :=
+  s'.ord = s.ord ∧ s'.pos = s.pos ∧ s'.row = s.row ∧ s'.numRows = s.numRows ∧ s'.loopCount = s.loopCount ∧
+  s'.sequence = s.sequence
+
+theorem playing_of_same {m : SeqMod} {s s' : St} (hp : Playing m s) (k : KSame s s')
+    (h1 : 1 ≤ s'.speed ∧ s'.speed ≤ 255) (h2 : 1 ≤ s'.bpm) (h3 : 1 ≤ s'.ftBpm) (h4 : st26ok s'.st26 = true)
+    (h5 : -1 ≤ s'.jump) (h6 : 0 ≤ s'.jumpline) : Playing m s' := by
+  obtain ⟨k1, k2, k3, _, _, k6⟩ := k
+  have c := hp.core
+  exact ⟨⟨by rw [k6]; exact c.seq, by rw [k1]; exact c.ord, by rw [k1]; exact c.ordPat, by rw [k2]; exact c.pos,
+    by rw [k3]; exact c.row, h1, h2, h3, h4, h5, h6⟩, by rw [k1, k2]; exact hp.posOrd⟩
+
+theorem applyEff_spec {m : SeqMod} {s : St} {e : Eff} (hp : Playing m s) (he : EffOk e) :
+    Playing m (applyEff s e) ∧ KSame s (applyEff s e) ∧ (applyEff s e).frame = s.frame := by
+  have c := hp.core
+  refine ⟨playing_of_same hp ⟨rfl, rfl, rfl, rfl, rfl, rfl⟩ ?_ ?_ c.ftBpm ?_ ?_ ?_, ⟨rfl, rfl, rfl, rfl, rfl, rfl⟩, rfl⟩
+  · simp only [applyEff]
+    cases hsp : e.speed with
+    | none => exact c.speed
+    | some v => exact he.speed v hsp
+  · simp only [applyEff]
+    cases hsp : e.bpm with
+    | none => exact c.bpm
+    | some v => exact he.bpm v hsp
+  · simp only [applyEff]
+    cases hsp : e.st26 with
+    | none => exact c.st26
+    | some v => exact he.st26 v hsp
+  · simp only [applyEff]
+    cases hsp : e.jump with
+    | none => exact c.jump
+    | some v => exact he.jump v hsp
+  · simp only [applyEff]
+    cases hsp : e.jumpline with
+    | none => exact c.jumpline
+    | some v => exact he.jumpline v hsp
+
+theorem st26Step_spec {m : SeqMod} {s : St} (hp : Playing m s) :
+    Playing m (st26Step s) ∧ KSame s (st26Step s) := by
+  have c := hp.core
+  unfold st26Step
+  split
+  · rename_i hne
+    have h := st26ok_spec c.st26
+    rcases h with h | ⟨h1, h2, h3, h4⟩
+    · exact absurd h hne
+    · refine ⟨playing_of_same hp ⟨rfl, rfl, rfl, rfl, rfl, rfl⟩ ?_ c.bpm c.ftBpm ?_ c.jump c.jumpline, ⟨rfl, rfl, rfl, rfl, rfl, rfl⟩⟩
+      · simp only
+        split <;> omega
+      · apply st26ok_of
+        right
+        simp only
+        split <;> omega
+  · exact ⟨hp, ⟨rfl, rfl, rfl, rfl, rfl, rfl⟩⟩
+
+/-- **Frame invariant** (all clauses except `row < rows`, which is `playFrame_row`). -/
+theorem playFrame_core {m : SeqMod} (w : WFacts m) {s s' : St} {eA eB : Eff} (hc : Core m s) (ha : EffOk eA)
+    (hb : EffOk eB) (h : playFrame m s eA eB = .ok s') :
+    Playing m s' ∧ s'.ftBpm = s'.bpm ∧ s.loopCount ≤ s'.loopCount ∧
+    (RowInv m s → Fresh m s' ∧ s'.row < s'.numRows) := by
+  unfold playFrame at h
+  split at h
+  · rename_i s1 heq
+    obtain ⟨p1, l1, f1⟩ := kernelStep_spec w hc heq
+    simp only [Res.ok.injEq] at h
+    generalize hs2 : (if s1.frame = 0 then st26Step (applyEff s1 eA) else s1) = s2 at h
+    have p2 : Playing m s2 ∧ KSame s1 s2 := by
+      rw [← hs2]
+      split
+      · obtain ⟨pa, ka, _⟩ := applyEff_spec p1 ha
+        obtain ⟨pb, kb⟩ := st26Step_spec pa
+        refine ⟨pb, ?_⟩
+        unfold KSame at *
+        omega
+      · exact ⟨p1, ⟨rfl, rfl, rfl, rfl, rfl, rfl⟩⟩
+    obtain ⟨p3, k3, _⟩ := applyEff_spec p2.1 hb
+    have k13 : KSame s1 (applyEff s2 eB) := by
+      have := p2.2
+      unfold KSame at *
+      omega
+    subst h
+    have c3 := p3.core
+    refine ⟨playing_of_same p3 ⟨rfl, rfl, rfl, rfl, rfl, rfl⟩ c3.speed c3.bpm c3.bpm c3.st26 c3.jump c3.jumpline, rfl, ?_, ?_⟩
+    · have := k13.2.2.2.2.1
+      simp only
+      omega
+    · intro ri
+      have := f1 ri
+      obtain ⟨k1, _, k3', k4, _, _⟩ := k13
+      unfold Fresh at *
+      simp only
+      rw [k1, k3', k4]; exact this
+  · rename_i hne
+    exact absurd h (hne s')
 
 end Xmp.Seq
